@@ -254,6 +254,31 @@ example :
   · simp [PModel.text, PConstraint.text, PDomain.text, PVarType.text, CName.text, fmtExp, fmtIndexes, indexText, varText, needsEscape,
       forClause, Cmp.text, ObjKind.text, reindent, joinWith, binOpText, wrapOperand, printsParen, natDigits, digitChar] <;> decide
 
+/-! #### graph literals: `let G = Graph { A -> [B: 2, C], B -> [C: -1.5], C }`
+
+The parser model reads graph literals (`graphLeaf`), `graphText` is `Display for Graph`; a `where` constant of the
+printable fragment may be a graph literal (`coreGraphValue`): `simple_variable` names, no parallel edges, costs that are
+integer / decimal literals with an optional `-`, and a first node with an edge (see `GraphOK` for why). -/
+
+/-- **`parse (tokens of a graph literal) = that graph`**: the rendering of `Display for Graph` is read back — through
+the failing block-function reading that the PEG tries first — as the graph with the same nodes, edges and costs; a
+cost `0` stays `Some(0)`, a missing cost stays missing -/
+theorem parse_format_graph {ns : List GNode} (h : GraphOK ns) {rest : List Tok} (hc : Closed rest) :
+    expAt (graphToks ns ++ rest) = .ok (.prim (graphText ns), rest) :=
+  parseExp_graph h hc _ (by simp [parseFuel])
+
+set_option maxRecDepth 8000 in
+/-- the display of `Graph { A -> [B: 0, C: -2, D: 1.5, E], B -> [A], C }` and its tokens; the decidable fragment accepts
+it (its text is lexed by the kernel-computed lexer model into `graphToks`), a graph of isolated nodes is outside -/
+theorem graph_sample :
+    let g : List GNode := [⟨"A", [⟨"B", some (false, "0")⟩, ⟨"C", some (true, "2")⟩, ⟨"D", some (false, "1.5")⟩, ⟨"E", none⟩]⟩,
+      ⟨"B", [⟨"A", none⟩]⟩, ⟨"C", []⟩]
+    graphText g = "Graph {\n    A -> [ B:0, C:-2, D:1.5, E ],\n    B -> [ A ],\n    C\n}"
+      ∧ graphOf (graphText g) = some g
+      ∧ coreGraphValue (.prim (graphText g)) = true
+      ∧ coreGraphValue (.prim (graphText [⟨"A", []⟩, ⟨"B", []⟩])) = false := by
+  refine ⟨by decide, by decide, by decide, by decide⟩
+
 /-- the same for the fragment without the lexical conditions on names (`WFpx`) -/
 theorem parse_format_program_wf (m : PModel) (h : WFpx m) : parseProgram (progToks m) = .ok m :=
   parseProgram_fmt m h
